@@ -1,6 +1,8 @@
 package vc
 
 import (
+	"runtime/debug"
+	"os"
 	"fmt"
 	"regexp"
 	"go/constant"
@@ -106,6 +108,9 @@ type nameCand struct {
 type unsupportedErr string
 
 func (e *Exec) unsupported(f string, a ...any) {
+	if os.Getenv("GOVC_DEBUG_STACK") != "" {
+		debug.PrintStack()
+	}
 	panic(unsupportedErr(fmt.Sprintf(f, a...)))
 }
 
@@ -409,6 +414,32 @@ func (e *Exec) wellFormed(name, sym string, st *State) {
 	}
 	v := Sel(sym, r)
 	e.Out.Assert("(forall ((" + r + " Int)) (! (=> (<= (owner " + r + ") " + e.top(st) + ") " + e.rangeFact(v, t, st) + ") :pattern (" + v + ")))")
+}
+
+// wellFormedRow states the well-formedness facts of one havocked row (row-wise loop havoc).
+func (e *Exec) wellFormedRow(name, ref, row string, st *State) {
+	t, ok := e.heapValT[name]
+	if !ok {
+		return
+	}
+	guard := "(<= (owner " + ref + ") " + e.top(st) + ")"
+	switch t.Underlying().(type) {
+	case *types.Pointer, *types.Map, *types.Chan:
+		// (integer ranges and slice headers of havocked rows are left unconstrained: the extra quantified facts made
+		// unrelated proofs unstable, and leaving them out only weakens what is assumed; loop invariants can state
+		// allocated(x[j]) where a proof needs it)
+	default:
+		return
+	}
+	if strings.HasPrefix(name, "E$") || strings.HasPrefix(name, "M$") {
+		_, vs, _ := arrayParts(e.heapSorts[name])
+		ks, _, _ := arrayParts(vs)
+		i := e.Out.FreshName("wf$i")
+		v := Sel(row, i)
+		e.Out.Assert("(forall ((" + i + " " + string(ks) + ")) (! " + Imp(guard, e.rangeFact(v, t, st)) + " :pattern (" + v + ")))")
+		return
+	}
+	e.Out.Assert(Imp(guard, e.rangeFact(row, t, st)))
 }
 
 func (e *Exec) mapHeaps(m *types.Map) (dom, val string, ds, vs Sort) {
@@ -1014,7 +1045,9 @@ func (e *Exec) enterLoop(fr *Frame, h *ssa.BasicBlock) (*State, string) {
 		default:
 			// row-wise havoc: only the listed (loop-invariant) references change
 			for _, r := range mi.refs {
-				cur = Sto(cur, r, e.Out.Fresh(name+"@row", vs))
+				row := e.Out.Fresh(name+"@row", vs)
+				cur = Sto(cur, r, row)
+				e.wellFormedRow(name, r, row, st)
 			}
 			e.set(st, name, sort, cur)
 		}
@@ -1121,22 +1154,46 @@ func (e *Exec) dryRun(fr *Frame, h *ssa.BasicBlock, loopOrder []*ssa.BasicBlock,
 				continue
 			}
 			inv := true
-			for _, sy := range symbolsIn(w.ref) {
+			ref := w.ref
+			for _, sy := range symbolsIn(ref) {
 				if fresh[sy] {
 					inv = false
+				}
+			}
+			if !inv {
+				// a reference computed inside the loop from loop-invariant values only (e.g. the contents of a
+				// captured variable's cell that the loop does not write) is loop-invariant once its definitions are unfolded
+				ref = e.Out.expandDefs(ref, fresh, e.allocSyms, 0)
+				if root := subRoot(ref); fresh[root] && e.allocSyms[root] {
+					mi.allocs = true
+					continue
+				}
+				inv = true
+				for _, sy := range symbolsIn(ref) {
+					if fresh[sy] {
+						inv = false
+					}
 				}
 			}
 			if !inv {
 				mi.whole = true
 				break
 			}
-			if !seen[w.ref] {
-				seen[w.ref] = true
-				mi.refs = append(mi.refs, w.ref)
+			if !seen[ref] {
+				seen[ref] = true
+				mi.refs = append(mi.refs, ref)
 			}
 		}
 		if !any || len(mi.refs) > 6 {
 			mi.whole = true
+		}
+		if os.Getenv("GOVC_DEBUG_LOOP") != "" {
+			fmt.Fprintf(os.Stderr, "loop %s #%d heap %s: whole=%v allocs=%v refs=%v\n", fr.fn.Name(), fr.loopOrd[h], k, mi.whole, mi.allocs, mi.refs)
+			for _, w := range writes {
+				if w.heap == k {
+					fmt.Fprintf(os.Stderr, "   write ref=%s\n", w.ref)
+				}
+			}
 		}
 	}
 	// restore
